@@ -580,6 +580,9 @@ func (p Patch) replace(doc *container, op Operation) error {
 
 	if path == "" {
 		val := op.value()
+		if val == nil {
+			return fmt.Errorf("replace operation has no value: %w", ErrMissing)
+		}
 
 		if val.which == eRaw {
 			if !val.tryDoc() {
